@@ -32,6 +32,7 @@ pub proof fn lemma_frame_head(m: Msg, t: Seq<u8>)
     let n = m.1.len() as int;
     assert(s.len() == 5 + n + t.len());
     lemma_hdr_prefix(m.0, n, m.1 + t);
+    lemma_hdr_subrange(m.0, n, m.1 + t, n);
     assert(s =~= hdr(m.0, n) + (m.1 + t));
     assert(hdr_len(s) == n);
     assert(s.subrange(5, 5 + n) =~= m.1);
@@ -95,6 +96,6 @@ pub proof fn lemma_wire_roundtrip(ms: Seq<Msg>)
 
 def build():
     u = Unit('wire', ['C01', 'C03'])
-    u.prelude('base.rs')
+    u.prelude('base.rs', 'wire.rs')
     u.raw(THEORY)
     return u
